@@ -632,6 +632,17 @@ def run(ctx):
             mstuck = stuck_of(ml[-1], 3)
             agree = d is None and not inc and istuck == mstuck
             why = sw_oracle(c, il) if m == "SW" else lf_oracle(c, il)
+            if not agree and m == "LF" and not inc:
+                # The hazard validation of the real code compares ADDRESSES: it falls through on a node that was freed, handed out again
+                # and became q->tail / q->head again, where the fresh-id model Lfq.v (ids) predicts a retry.  Reference for such a case is
+                # the reclaiming model CQueues/LfqReclaim.v (theorem lfqr_refines_lfq: that step is matched by 4 steps of Lfq.v): re-run
+                # the case in LR mode; only if that replay (every grant: kinds, chain addresses, pool, hazard slots, retired lists) and
+                # the oracles accept it, the LF difference is resolved.  A real defect also differs from LfqReclaim.v and stays a mismatch.
+                from . import _c15_ext
+                ok_lr, _n = _c15_ext.lf_recheck(ctx, exe, c, ns)
+                if ok_lr:
+                    agree = True
+                    stats["lf_resolved_by_reclaiming_model"] = stats.get("lf_resolved_by_reclaiming_model", 0) + 1
             if not agree:
                 mismatches.append(("%s micro-step replay: first difference at grant %s: impl %r model %r; stuck impl %s model %s" % (
                     m, d, ig[d] if d is not None and d < len(ig) else None, mg[d] if d is not None and d < len(mg) else None, istuck, mstuck),
